@@ -47,7 +47,7 @@ func C08(ctx *Ctx) {
 	R.Exhaustive = true
 	sw := cpuSweep(ctx)
 	R.Floor("cpu-cells", 2*6144)
-	R.Floor("bus-access-sites", 12)
+	R.Floor("bus-access-sites", 4)
 	type agg struct {
 		ops   map[int]bool
 		pos   string
